@@ -14,9 +14,19 @@ add("C05", MC, "vsched", "stateless model checking of the real code under a cont
 add("C07", MC, "vsched", "stateless model checking of the real code under a controlled scheduler: all interleavings up to a preemption bound (iterative context bounding + happens-before fingerprint pruning)",
     "Every interleaving (preemption bound 3 quick / 5 thorough, completed bound reported per scenario) of 2-4 threads issuing 1-2 SingleFlight.Do/DoEx, LockedCalls.Do and ResourceManager.GetResource calls on colliding keys, executed on go-zero's own core/syncx sources rewritten onto the scheduler shim; an interval checker over the totally ordered call/exec log decides per-key exclusion, no-stale-result, fresh-flag, exactly-once and single-creation.",
     "Bounded to the listed thread/call counts and preemption bound; sequential consistency; the shim's model of sync.Mutex/RWMutex/WaitGroup (see DESIGN 2.3, 2.9).", "DESIGN.md#c07")
+add("C10", MC, "vsched", "stateless model checking of the real code under a controlled scheduler: all interleavings x fault placements up to a preemption bound and a timer-deviation bound (iterative context bounding + happens-before fingerprint pruning)",
+    "Every interleaving (P<=1,T<=1 quick; P<=2 thorough; completed bounds per scenario in the evidence) of ~110 small MapReduce instances (0-3 items, 1-2 workers, fan-out 0-2; MapReduce, MapReduceVoid, MapReduceChan, ForEach, Finish, FinishVoid) crossed with single faults and fault pairs (generator/mapper/reducer panic, cancel(err), cancel(nil), stalled mapper, early or missing reducer output, context deadline on the virtual clock, cancellation by another thread), run on go-zero's own core/mr rewritten onto the scheduler shim. Oracles from the statement: exactly-once mapping and complete reduction when nothing is cancelled, worker cap, justified error or re-raised user panic otherwise, no caller deadlock, no thread of the call alive after the user functions returned, never a runtime panic. Three genuine defect classes of the shutdown protocol are listed in known_findings.txt.",
+    "Bounded to the listed instance sizes, fault menus and deviation bounds; sequential consistency; the shim's model of channels/select/sync/context (DESIGN 2.3, 2.9).", "DESIGN.md#c10")
 add("C12", MC, "seqx+vsched", "explicit-state breadth-first search over operation histories, each transition executed on the real TimingWheel driven to quiescence by the controlled scheduler, compared with a reference model",
     "All histories up to depth 6 (9 thorough) of SetTimer/MoveTimer/RemoveTimer/tick/Drain over 2 keys and delays of 1..2n+1 intervals on wheels of 1-4 (1-10 thorough) slots; in every reached state the set of timers fired by a tick (and delivered by Drain) must equal the reference's due set; states deduplicated by a white-box dump of the whole wheel.",
     "Internal goroutines of the wheel run under the default schedule to quiescence after each operation (their interleavings are not explored); delays are multiples (and one half-multiple) of the interval.", "DESIGN.md#c12")
+
+add("C13", MC, "seqx", "explicit-state breadth-first search over registry-event histories, every transition executed on the real container / registry / kube handler / resolver code, compared with a reference registry",
+    "All histories up to depth 6 (8 thorough) of put / update-to-new-value / delete watch events, two-event responses, disconnect, offline changes and reload snapshots (every delivery order of the map-ordered add/remove runs), late Monitor, over 3 keys x 2 values, on the real subscriber container (plain and exclusive), the real registry cluster.handleWatchEvents/load/handleChanges with real containers as listeners, the kube EventHandler (one Endpoints object, 8 address sets, before/after informer start) and the gRPC resolver glue incl. subset(32); in every reached state Values() (as a set) must equal the reference registrations, listeners must have been notified, the registry copy must equal the reference, the last published address list must equal the current one. Three genuine defect classes (exclusive mode after reload, kube initial add) are listed in known_findings.txt.",
+    "No goroutines or network: events are fed through the unexported handlers by white-box files; states violating a listed finding are not expanded further.", "DESIGN.md#c13")
+add("C14", FE, "enumx", "exhaustive fault enumeration: every body shape x every fault placement against a recording database/sql driver",
+    "580k (3.5M thorough) cases: 8 entry points (sqlx / sqlc Transact, TransactCtx) x bodies of 0-3 (4) statements (exec, query, prepared, nested) x every placement of begin / statement / commit / rollback failures, body error, typed-nil error, panics of 7 value kinds, context cancellation; oracle on the driver log: one Begin, exactly one Commit or Rollback after the body, Commit iff the body returned nil, nil error iff the commit succeeded, commit/rollback errors reported, panic never swallowed as success.",
+    "A recording driver stands in for the database; drivers needing a real server (mysql/postgres constructors) share the same commonSqlConn path.", "DESIGN.md#c14")
 
 def main():
     props = [json.loads(l)["id"] for l in open(os.path.join(V, "properties.jsonl"))]
